@@ -444,6 +444,10 @@ impl Stack {
         self.max_stack_size = max_stack_size;
     }
 
+    pub fn max_stack_size(&self) -> VmIndex {
+        self.max_stack_size
+    }
+
     fn assert_pop(&self, count: VmIndex) {
         let frame = self.frames.last().unwrap();
         let args = if let State::Extern(ExternState {
